@@ -168,9 +168,10 @@ def run_tie(run, tier, seed, replay=None):
     if len(acyclic_nested) < (40 if quick else 400) or not loops:
         run.violation("C01:coverage:nested", f"generator coverage target missed: {len(acyclic_nested)} acyclic nested designs, {len(loops)} loops",
                       dict(kind="coverage"), found_input=False)
-    order = sorted((i for i in range(n) if code[i] not in (0, 7, 8)), key=lambda i: len(json.dumps(designs[i])))
+    # corpus witnesses first (the loop of fixes/C01F-1 is corpus design 0), then the smallest generated designs
+    order = sorted((i for i in range(n) if code[i] not in (0, 7, 8)), key=lambda i: (i >= len(corp), i if i < len(corp) else len(json.dumps(designs[i]))))
     v1 = [i for i in order if code[i] in (1, 6)]
-    for i in v1[:2]:
+    for i in v1[:3]:
         what = ("valid design rejected" if code[i] == 6 else
                 "exported package differs from the written design (net partition / leaf devices)")
         run.violation("C01:design:" + json.dumps(designs[i], sort_keys=True), f"{what}: {json.dumps(outs[i]['err'])[:400]}",
@@ -226,8 +227,9 @@ def run_bundle_tie(run, tier, seed):
                compared="hypotheses of C01F_bundles_end_to_end_partial (names_ok, pairs_ok, orbits computed, on nodes of the design and closed; "
                         "wf_design / frag_ok2 / xinfo_ok / terminals of the lowered design); net labels of elab_export_model2(lower d) on the mapped "
                         "terminals against the path-based labels; implementation's package against the same labels (chk_c01b)")
-    if m - len(bad) < (200 if quick else 1000):
-        run.violation("C01:coverage:bundles-e2e", f"coverage target missed: only {m - len(bad)} of {m} bundle designs inside the hypotheses of the corollary",
+    inside = m - count(3) - count(8) - count(9)      # whatever the implementation did with them
+    if inside < (200 if quick else 1000):
+        run.violation("C01:coverage:bundles-e2e", f"coverage target missed: only {inside} of {m} bundle designs inside the hypotheses of the corollary",
                       dict(kind="coverage"), found_input=False)
     order = sorted((i for i, c in bad.items() if c not in (8, 9)), key=lambda i: len(json.dumps(every[i])))
     v1 = [i for i in order if bad[i] in (1, 6)]
@@ -245,4 +247,4 @@ def run_bundle_tie(run, tier, seed):
         run.violation(f"C01:bundles-e2e:{c}:" + json.dumps(every[i], sort_keys=True), what,
                       dict(kind="tie-broken" if c == 2 else "checker-inconsistency", code=c, stream="bundles-end-to-end", fragment="bundles",
                            case=every[i], impl=outs[i], failing_cases=len(rest)), found_input=False)
-    run.coverage["bundles_e2e_tie"] = dict(designs=m, inside=m - len(bad), outside_frag_ok2=count(8), lowered_not_wf=count(9))
+    run.coverage["bundles_e2e_tie"] = dict(designs=m, inside=inside, all_equal=m - len(bad), outside_frag_ok2=count(8), lowered_not_wf=count(9))
